@@ -57,6 +57,7 @@ type World struct {
 	cg         *CallGraph
 	regexIDs   map[string]string
 	placeholders map[string]bool
+	sentinels    map[string]bool
 }
 
 type FuncSite struct {
@@ -573,4 +574,82 @@ func containsSym(text, sym string) bool {
 
 func isSymChar(c byte) bool {
 	return (c >= 'a' && c <= 'z') || (c >= 'A' && c <= 'Z') || (c >= '0' && c <= '9') || c == '_'
+}
+
+
+// sentinelErrors: package-level variables of the repository declared as
+// `var ErrX = errors.New(...)` / `fmt.Errorf(...)` and assigned nowhere else.
+func (w *World) sentinelErrors() map[string]bool {
+	if w.sentinels != nil {
+		return w.sentinels
+	}
+	out := map[string]bool{}
+	objs := map[types.Object]string{}
+	for _, p := range w.pkgs {
+		for _, f := range p.Syntax {
+			for _, d := range f.Decls {
+				gd, ok := d.(*ast.GenDecl)
+				if !ok || gd.Tok != token.VAR {
+					continue
+				}
+				for _, sp := range gd.Specs {
+					vs := sp.(*ast.ValueSpec)
+					for i, nm := range vs.Names {
+						if i >= len(vs.Values) {
+							continue
+						}
+						c, ok := vs.Values[i].(*ast.CallExpr)
+						if !ok {
+							continue
+						}
+						se, ok := c.Fun.(*ast.SelectorExpr)
+						if !ok {
+							continue
+						}
+						pk, ok := se.X.(*ast.Ident)
+						if !ok {
+							continue
+						}
+						if pn, ok := p.TypesInfo.Uses[pk].(*types.PkgName); ok {
+							ip := pn.Imported().Path()
+							if (ip == "errors" && se.Sel.Name == "New") || (ip == "fmt" && se.Sel.Name == "Errorf") {
+								if o := p.TypesInfo.Defs[nm]; o != nil {
+									objs[o] = objKey(o)
+									out[objKey(o)] = true
+								}
+							}
+						}
+					}
+				}
+			}
+		}
+	}
+	// any assignment to one of them anywhere voids the fact
+	for _, p := range w.pkgs {
+		for _, f := range p.Syntax {
+			ast.Inspect(f, func(n ast.Node) bool {
+				as, ok := n.(*ast.AssignStmt)
+				if !ok {
+					return true
+				}
+				for _, l := range as.Lhs {
+					var id *ast.Ident
+					switch x := l.(type) {
+					case *ast.Ident:
+						id = x
+					case *ast.SelectorExpr:
+						id = x.Sel
+					}
+					if id != nil {
+						if k, ok := objs[p.TypesInfo.ObjectOf(id)]; ok {
+							delete(out, k)
+						}
+					}
+				}
+				return true
+			})
+		}
+	}
+	w.sentinels = out
+	return out
 }
